@@ -18,6 +18,7 @@
 import BioCantor.Proofs.TxMain
 import BioCantor.Proofs.TxInterval
 import BioCantor.Proofs.TxIntrons
+import BioCantor.Proofs.TxChunkUtr
 namespace BioCantor.Props.C06
 open BioCantor BioCantor.Spec BioCantor.Model BioCantor.Model.Transcript BioCantor.Proofs
 
@@ -221,6 +222,161 @@ theorem chrom_interval_to_cds_spec (t : Transcript) (h : WFT t) (s e : Int) (st 
     okCI2D (specOf t) s e st (ans (t.sequenceIntervalToCds s e st)) = true :=
   ci2d_ok t h s e st
 
+/-- introns ∪ exons = span, position by position, and no position is both (same hypotheses as
+    `introns_spec_partial`; directional strand, non-overlapping exons). -/
+theorem introns_and_exons_partition_the_span (t : Transcript) (h : WFT t)
+    (hne : noEmptyBlock t.exons.blocks = true) (hsc : txScope (specOf t) = true) :
+    ∃ g, t.chromosomeGapsLocation = .ok g ∧
+      (∀ p, (p ∈ locationBases g ∨ covers t.exons p = true) ↔
+        (minStart t.exons.blocks ≤ p ∧ p < maxEndS t.exons.blocks)) ∧
+      (∀ p, ¬ (p ∈ locationBases g ∧ covers t.exons p = true)) :=
+  introns_exons_partition t h hne hsc
+
+/-! ## transcripts built on a sequence chunk
+
+  `c : Model.ChunkTranscript` = the same constructor arguments with a chunk parent (`seq_chunk_to_parent`):
+  `c.base` are the chromosome-level members, `c.location` / `c.cdsLocation` the two `_location`s, `(c.w, c.wst)`
+  the chunk window.  `WFC c` = what the modelled constructor establishes (`chunk_constructor_establishes_wf`). -/
+
+/-- The constructor on a chunk: well-formed, and its chromosome-level members are exactly what the constructor
+    builds without a chunk. -/
+theorem chunk_constructor_establishes_wf (exons : List Blk) (st : Strand) (cds : Option (List Blk)) (w : Blk)
+    (wst : Strand) (hW : winOk ⟨w, wst⟩ = true) (c : ChunkTranscript)
+    (h : mkChunkTranscript exons st cds w wst = .ok c) :
+    WFC c ∧ mkTranscript exons st cds none = .ok c.base ∧ c.w = w ∧ c.wst = wst :=
+  mkChunkTranscript_spec exons st cds w wst hW c h
+
+/-- **chunk twin (C07-T1 for conversions)**: a transcript built on ANY chunk and the same transcript built on the
+    chromosome (with or without sequence) answer every chromosome-level position conversion identically. -/
+theorem chunk_built_chromosome_conversions_unchanged (exons : List Blk) (st : Strand) (cds : Option (List Blk))
+    (w : Blk) (wst : Strand) (plen : Option Nat) (hW : winOk ⟨w, wst⟩ = true) (c : ChunkTranscript) (t : Transcript)
+    (hc : mkChunkTranscript exons st cds w wst = .ok c) (ht : mkTranscript exons st cds plen = .ok t) :
+    c.base.exons = t.exons ∧ c.base.cds = t.cds ∧
+    ∀ x : Int,
+      c.base.sequencePosToTranscript x = t.sequencePosToTranscript x ∧
+      c.base.transcriptPosToSequence x = t.transcriptPosToSequence x ∧
+      c.base.sequencePosToCds x = t.sequencePosToCds x ∧
+      c.base.cdsPosToSequence x = t.cdsPosToSequence x ∧
+      c.base.cdsPosToTranscript x = t.cdsPosToTranscript x ∧
+      c.base.transcriptPosToCds x = t.transcriptPosToCds x ∧
+      c.base.sequencePosToAminoAcid x = t.sequencePosToAminoAcid x := by
+  have := twin_members exons st cds w wst plen hW c t hc ht
+  subst this
+  exact ⟨rfl, rfl, fun _ => ⟨rfl, rfl, rfl, rfl, rfl, rfl, rfl⟩⟩
+
+/-- `chunk_relative_location` is the restriction to the chunk: it satisfies C04's chunk clause for the interval's
+    initial location, and its bases are the in-chunk transcript bases, in transcript order, in chunk coordinates. -/
+theorem chunk_location_is_restriction (c : ChunkTranscript) (h : WFC c) (hd : c.base.exons.strand ≠ .unstranded)
+    (hno : c.base.exons.NonOverlap) :
+    okChunkLoc (specOf c.base) (winOf c) (some c.location) = true ∧
+    okChunkDown (initOf c.base.exons) c.w c.wst (some c.location) = true ∧
+    locationBases c.location = chunkBases c.base.exons (winOf c) := by
+  refine ⟨by unfold okChunkLoc; rw [h.loc]; simp [specOf], ?_, ?_⟩
+  · have := Lift.chunkDown_spec (initOf c.base.exons) (initOf_wf _ h.base.exons) c.w c.wst
+    rw [chunkDown_explicit _ (initOf_wf _ h.base.exons) (winOf c) h.win] at this
+    rw [h.loc]; exact this
+  · rw [h.loc]; exact (chunk_location_facts _ h.base.exons hd hno (winOf c) h.win).2.1
+
+/-- chunk position → transcript: index among the in-chunk transcript bases; positions off the transcript refused. -/
+theorem chunk_pos_to_transcript_spec (c : ChunkTranscript) (h : WFC c) (hd : c.base.exons.strand ≠ .unstranded)
+    (hno : c.base.exons.NonOverlap) (q : Int) :
+    okCR2T (specOf c.base) (winOf c) q (ans (c.chunkRelativePosToTranscript q)) = true :=
+  cr2t_ok c h hd hno q
+
+/-- transcript → chunk position: chunk coordinate of the `r`-th in-chunk transcript base. -/
+theorem transcript_pos_to_chunk_spec (c : ChunkTranscript) (h : WFC c) (hd : c.base.exons.strand ≠ .unstranded)
+    (hno : c.base.exons.NonOverlap) (r : Int) :
+    okT2CR (specOf c.base) (winOf c) r (ans (c.transcriptPosToChunkRelative r)) = true :=
+  t2cr_ok c h hd hno r
+
+/-- chunk position → CDS. -/
+theorem chunk_pos_to_cds_spec (c : ChunkTranscript) (h : WFC c) (hd : c.base.exons.strand ≠ .unstranded)
+    (hnoD : ∀ d, c.base.cds = some d → d.NonOverlap) (q : Int) :
+    okCR2D (specOf c.base) (winOf c) q (ans (c.chunkRelativePosToCds q)) = true :=
+  cr2d_ok c h hd hnoD q
+
+/-- CDS → chunk position. -/
+theorem cds_pos_to_chunk_spec (c : ChunkTranscript) (h : WFC c) (hd : c.base.exons.strand ≠ .unstranded)
+    (hnoD : ∀ d, c.base.cds = some d → d.NonOverlap) (r : Int) :
+    okD2CR (specOf c.base) (winOf c) r (ans (c.cdsPosToChunkRelative r)) = true :=
+  d2cr_ok c h hd hnoD r
+
+/-- chunk-relative position = chromosome position mapped through the chunk window: when the chunk contains the
+    transcript, `chunk_relative_pos_to_transcript(chunk coordinate of p)` is `sequence_pos_to_transcript(p)` for
+    every chromosome position `p` of the chunk (same value, or both refused). -/
+theorem chunk_pos_is_chrom_pos_through_window (c : ChunkTranscript) (h : WFC c)
+    (hd : c.base.exons.strand ≠ .unstranded) (hno : c.base.exons.NonOverlap)
+    (hall : ∀ x ∈ bases c.base.exons, inWin c.w x = true) (p : Nat) (hp : inWin c.w p = true) :
+    ans (c.chunkRelativePosToTranscript (chunkOf (winOf c) p : Nat)) = ans (c.base.sequencePosToTranscript p) := by
+  have h1 := cr2t_ok c h hd hno (chunkOf (winOf c) p : Nat)
+  unfold okCR2T at h1
+  rw [beq_iff_eq] at h1
+  rw [h1, ans_c2t c.base h.base, cr2t_through_window (specOf c.base) (winOf c) hall p hp]
+
+/-- …and `transcript_pos_to_chunk_relative(r)` is the chunk coordinate of `transcript_pos_to_sequence(r)`. -/
+theorem transcript_pos_to_chunk_is_chrom_through_window (c : ChunkTranscript) (h : WFC c)
+    (hd : c.base.exons.strand ≠ .unstranded) (hno : c.base.exons.NonOverlap)
+    (hall : ∀ x ∈ bases c.base.exons, inWin c.w x = true) (r : Int) :
+    ans (c.transcriptPosToChunkRelative r) =
+      (ans (c.base.transcriptPosToSequence r)).map (fun p => ((chunkOf (winOf c) p.toNat : Nat) : Int)) := by
+  have h1 := t2cr_ok c h hd hno r
+  unfold okT2CR at h1
+  rw [beq_iff_eq] at h1
+  rw [h1, ans_t2c c.base, t2cr_through_window (specOf c.base) (winOf c) hall r]
+
+/-- (in-chunk) transcript interval → chunk-relative location: the C01 interval clause on the chunk-relative location. -/
+theorem transcript_interval_to_chunk_spec (c : ChunkTranscript) (h : WFC c) (hd : c.base.exons.strand ≠ .unstranded)
+    (hno : c.base.exons.NonOverlap) (rs re : Int) (rst : Strand) :
+    okTI2CR (specOf c.base) (winOf c) rs re rst (ans (c.transcriptIntervalToChunkRelative rs re rst)) = true :=
+  ti2cr_ok c h hd hno rs re rst
+
+/-- chunk interval → transcript-relative location; intervals that are not intervals of the chunk are refused. -/
+theorem chunk_interval_to_transcript_spec (c : ChunkTranscript) (h : WFC c) (hd : c.base.exons.strand ≠ .unstranded)
+    (hno : c.base.exons.NonOverlap) (s e : Int) (st : Strand) :
+    okCRI2T (specOf c.base) (winOf c) s e st (ans (c.chunkRelativeIntervalToTranscript s e st)) = true :=
+  cri2t_ok c h hd hno s e st
+
+theorem cds_interval_to_chunk_spec (c : ChunkTranscript) (h : WFC c) (hd : c.base.exons.strand ≠ .unstranded)
+    (hnoD : ∀ d, c.base.cds = some d → d.NonOverlap) (rs re : Int) (rst : Strand) :
+    okDI2CR (specOf c.base) (winOf c) rs re rst (ans (c.cdsIntervalToChunkRelative rs re rst)) = true :=
+  di2cr_ok c h hd hnoD rs re rst
+
+theorem chunk_interval_to_cds_spec (c : ChunkTranscript) (h : WFC c) (hd : c.base.exons.strand ≠ .unstranded)
+    (hnoD : ∀ d, c.base.cds = some d → d.NonOverlap) (s e : Int) (st : Strand) :
+    okCRI2D (specOf c.base) (winOf c) s e st (ans (c.chunkRelativeIntervalToCds s e st)) = true :=
+  cri2d_ok c h hd hnoD s e st
+
+/-- `get_5p_interval` of a chunk-built transcript = the 5' UTR's in-chunk bases in chunk coordinates.
+    FULL statement: without `hall`.  It is FALSE for the code as it is (finding F-C06b): the transcript index of
+    the CDS start — an index into the WHOLE transcript — is applied to the in-chunk part of the transcript, so a
+    chunk that cuts the transcript's 5' side shifts the answer (`utr5_on_cutting_chunk_deviates`).  Proved here
+    for chunks that contain the whole transcript. -/
+theorem utr5_on_chunk_spec_partial (c : ChunkTranscript) (h : WFC c) (d : Loc) (hc : Coding c.base d)
+    (hnoD : d.NonOverlap) (hall : ∀ x ∈ bases c.base.exons, inWin c.w x = true) :
+    okKUtr (specOf c.base) (winOf c) true (ans c.get5pInterval) = true :=
+  kutr5_ok c h d hc hnoD hall
+
+/-- `get_3p_interval` of a chunk-built transcript, same scope (F-C06b: `len(cds.chunk_relative_location)` and
+    `len(_location)` are in-chunk lengths, the CDS end index is a whole-transcript index). -/
+theorem utr3_on_chunk_spec_partial (c : ChunkTranscript) (h : WFC c) (d : Loc) (hc : Coding c.base d)
+    (hnoD : d.NonOverlap) (hall : ∀ x ∈ bases c.base.exons, inWin c.w x = true) :
+    okKUtr (specOf c.base) (winOf c) false (ans c.get3pInterval) = true :=
+  kutr3_ok c h d hc hnoD hall
+
+/-- exons `[0,10)` +, CDS `[4,8)`, built on the chunk `[2,20)` (which cuts the first two bases) -/
+def exCut : ChunkTranscript :=
+  ⟨⟨⟨[(0, 10)], .plus⟩, some ⟨[(4, 8)], .plus⟩, none⟩, (2, 20), .plus, .single (0, 8) .plus, some (.single (2, 6) .plus)⟩
+
+/-- F-C06b witness: on `exCut` the modelled current code answers chunk `[0,4)` (chromosome `[2,6)`, two of them
+    CDS bases) for the 5' UTR, whose in-chunk part is chromosome `[2,4)` = chunk `[0,2)`; and a zero-length
+    3' UTR, whose in-chunk part is chromosome `[8,10)` = chunk `[6,8)`. -/
+theorem utr_on_cutting_chunk_deviates :
+    exCut.get5pInterval = .ok (.single (0, 4) .plus) ∧
+    okKUtr (specOf exCut.base) (winOf exCut) true (ans exCut.get5pInterval) = false ∧
+    exCut.get3pInterval = .ok (.single (8, 8) .plus) ∧
+    okKUtr (specOf exCut.base) (winOf exCut) false (ans exCut.get3pInterval) = false := by
+  refine ⟨by rfl, by decide, by rfl, by decide⟩
+
 /-! ### non-vacuity: a minus-strand transcript with a 0-bp gap, CDS starting at an exon boundary and
     ending inside the last (5'-most on the chromosome) exon satisfies every hypothesis used above -/
 
@@ -259,5 +415,33 @@ example : (⟨⟨[(0, 10), (20, 30)], .plus⟩, some ⟨[(5, 10), (20, 30)], .pl
     = .ok (.single (30, 30) .plus) := by rfl
 -- (values of `get_5p_interval`, `chromosome_gaps_location`, … on concrete transcripts go through the
 --  constructor's merge sort, which the kernel does not unfold; they are exercised by the correspondence run)
+
+-- chunk-built: `exCut` is what the constructor builds (single-exon lists stay clear of the merge sort), is
+-- well formed, directional, non-overlapping, coding with a CDS that is a stretch of the transcript
+example : mkChunkTranscript [(0, 10)] .plus (some [(4, 8)]) (2, 20) .plus = .ok exCut := by
+  simp [mkChunkTranscript, initializeLocationOnChunk, initializeLocation, Model.chromosomeLocation, mkSingle,
+    mkCompoundLoc, sortBlocks, blocksValid, Loc.len, blocksLen, Blk.len, chunkDown, relativeToSingle,
+    overlapKernel, singleRelativeToSingle, singleP2R, strandRelativeTo, bind, Except.bind, pure, Except.pure, exCut]
+  rfl
+example : WFC exCut :=
+  ⟨⟨by decide, fun d hd => by
+      have : d = ⟨[(4, 8)], .plus⟩ := by simp [exCut] at hd; exact hd.symm
+      subst this; exact ⟨by decide, rfl⟩⟩, by decide, by decide, by decide⟩
+example : exCut.base.exons.strand ≠ .unstranded := by decide
+example : exCut.base.exons.NonOverlap := by decide
+example : Coding exCut.base ⟨[(4, 8)], .plus⟩ := ⟨rfl, by decide, by decide⟩
+example : exCut.chunkRelativePosToTranscript 0 = .ok 0 := by rfl          -- chunk 0 = chromosome 2 = in-chunk base 0
+example : exCut.base.sequencePosToTranscript 2 = .ok 2 := by rfl          -- …which is transcript position 2
+-- a chunk that contains the transcript (`hall`), on the minus strand of the chromosome
+def exWhole : ChunkTranscript :=
+  ⟨⟨⟨[(2, 10)], .plus⟩, some ⟨[(4, 8)], .plus⟩, none⟩, (0, 12), .minus, .single (2, 10) .minus, some (.single (4, 8) .minus)⟩
+example : WFC exWhole :=
+  ⟨⟨by decide, fun d hd => by
+      have : d = ⟨[(4, 8)], .plus⟩ := by simp [exWhole] at hd; exact hd.symm
+      subst this; exact ⟨by decide, rfl⟩⟩, by decide, by decide, by decide⟩
+example : ∀ x ∈ bases exWhole.base.exons, inWin exWhole.w x = true := by decide
+example : Coding exWhole.base ⟨[(4, 8)], .plus⟩ := ⟨rfl, by decide, by decide⟩
+example : exWhole.get5pInterval = .ok (.single (8, 10) .minus) := by rfl  -- chromosome [2,4) on the minus chunk
+example : exWhole.get3pInterval = .ok (.single (2, 4) .minus) := by rfl   -- chromosome [8,10)
 
 end BioCantor.Props.C06
